@@ -58,14 +58,29 @@ Theorem sweep_accounting_vec : forall (m : mem) (v : vecst), vcharged v = vec_by
   heap (op_sweep m (vec_bytes v)) = heap m - vcharged v.
 Proof. exact sweep_vec_exact. Qed.
 
-(* byte buffers: a non-positive or over-MAX_ALLOC size is refused before the host allocates anything;
-   a granted request is at most MAX_ALLOC; the heap budget is never charged *)
+(* byte buffers: a non-positive or over-MAX_ALLOC size is refused before the host allocates anything; a granted request
+   is at most MAX_ALLOC *)
 Theorem bytes_alloc_bounded : forall (cap : N) (m : mem) (n : Z),
   (n <= 0)%Z \/ MAX_ALLOC < Z.to_N n -> op_bytes cap m n = (RTypeErr, m, []).
 Proof. exact bytes_bounded. Qed.
-Theorem bytes_alloc_host_bound : forall (cap : N) (m : mem) (n : Z),
-  host_total (snd (op_bytes cap m n)) <= MAX_ALLOC /\ snd (fst (op_bytes cap m n)) = m.
+Theorem bytes_alloc_host_bound : forall (cap : N) (m : mem) (n : Z), host_total (snd (op_bytes cap m n)) <= MAX_ALLOC.
 Proof. exact bytes_host_bound. Qed.
+(* byte buffers are data the program holds (KF-C10-7: they were not counted at all).  With the natives charging them
+   (Extracted BYTES_CHARGED, read from runtime/src/stdlib/bytes.rs): granted exactly when the buffer fits what is left of the
+   budget, charged in full, the check precedes the host allocation, a refusal changes nothing, never an abort when the
+   host can grant the limit; and any number of buffers keeps heap + manual <= max *)
+Theorem bytes_alloc_charged : forall (cap : N) (m : mem) (n : Z),
+  maxb m < U64 -> Inv m -> maxb m <= cap -> (0 < n)%Z -> Z.to_N n <= MAX_ALLOC ->
+  let '(r, m', t) := op_bytes_gen true cap m n in
+  (r = ROk <-> held m + Z.to_N n <= maxb m) /\ (r = ROk -> held m' = held m + Z.to_N n) /\ (r <> ROk -> m' = m) /\
+  check_first t = true /\ r <> RAbort /\ r <> RPanic.
+Proof. exact bytes_charged_exact. Qed.
+Theorem byte_buffers_keep_limit : forall (cap : N) (sz : Z) (k : N) (m : mem), Inv m -> Inv (snd (bytes_many cap sz k m)).
+Proof. exact bytes_many_ok. Qed.
+(* the old natives: 200 000 000 bytes granted under a 1 MiB limit, the budget does not move *)
+Example bytes_uncharged_was_unbounded :
+  op_bytes_gen false w_cap_b (mkMem 100000 0 1048576) 200000000 = (ROk, mkMem 100000 0 1048576, [EHost 200000000]).
+Proof. exact bytes_uncharged_witness. Qed.
 
 (* ---- the primitives that were unguarded before the repairs of KF-C10-1..5 (the witnesses of the old behaviour
    were array_new_checks_late / vec_growth_unaccounted / vec_reserve_unchecked / string_repeat_checks_late) *)
